@@ -254,9 +254,10 @@ fn binding_strength(expr: &pr::ExprKind) -> u8 {
         // Stronger than a range, since `-1..2` is `(-1)..2`
         // Stronger than binary op, since `-x == y` is `(-x) == y`
         // Stronger than a func call, since `exists !y` is `exists (!y)`
-        pr::ExprKind::Unary(..) => 20,
+        pr::ExprKind::Unary(..) => 21,
 
-        pr::ExprKind::Range(_) => 19,
+        // Stronger than every binary op, since `2 ** 3..5` is `2 ** (3..5)`
+        pr::ExprKind::Range(_) => 20,
 
         pr::ExprKind::Binary(pr::BinaryExpr { op, .. }) => match op {
             pr::BinOp::Pow => 19,
